@@ -6,7 +6,7 @@ use of a hashed set, R4 stream/path confluence.
 import ast
 
 from sa import callgraph
-from sa.astutil import (call_name, calls_in, dotted, norm, walk_no_nested, last_attr,
+from sa.astutil import (anorm, call_name, calls_in, dotted, norm, walk_no_nested, last_attr,
                         names_in, func_params, guards_of, enclosing_function)
 from sa.loader import AnalysisError
 
@@ -281,14 +281,14 @@ def run(ctx):
                                 norm(node.func.value).startswith('self.'):
                             site = node
                         if site is not None:
-                            key = '%s:%s:%s' % (triage_key, qual, norm(site)[:80])
+                            key = '%s:%s:%s' % (triage_key, qual, anorm(site, fn)[:80])
                             r2 = ctx.triage('c03_singleton_state', key)
                             ctx.ob('C03.R1', 'singleton-state:' + key, r2 is not None,
                                    'method %s of the process-wide singleton %s writes instance '
                                    'state%s' % (qual, triage_key, ' (reviewed: %s)' % r2 if r2 else
                                                 ': it survives into the next run'), cmod, site)
         for m2, q2, node in writes:
-            key = '%s.%s<-%s.%s:%s' % (mname, gname, m2.name, q2, norm(node)[:60])
+            key = '%s.%s<-%s.%s:%s' % (mname, gname, m2.name, q2, anorm(node, f2)[:60])
             r3 = ctx.triage('c03_global_writes', key)
             ctx.ob('C03.R1', 'global-write:' + key, r3 is not None,
                    'function %s.%s writes through the module-level object %s.%s%s' % (
@@ -533,7 +533,7 @@ def run(ctx):
         n_sets += len(loc)
         is_s = lambda n, fid=fid: facts.is_set(fid, n)
         for node, what in order_sinks(facts, fid, fn, is_s):
-            key = '%s.%s:%s' % (fid[0], fid[1], norm(node)[:70])
+            key = '%s.%s:%s' % (fid[0], fid[1], anorm(node, fn)[:70])
             reason = ctx.triage('c03_set_order', key)
             ctx.ob('C03.R3', 'set-order-sink:' + key, reason is not None,
                    '%s in %s.%s: iteration order of a set of identity-hashed groups (or of '
@@ -575,9 +575,18 @@ def run(ctx):
            'run.single only forwards the stream to read_molecule_file', run_mod, single)
     imod = prog.mod('input')
     rmf = imod.func('read_molecule_file')
-    src = norm(rmf)
-    ok = 'input_file = filename if stream is None else stream' in src and \
-        'mol_container.name = input_path.stem' in src and 'input_path = Path(filename)' in src
+    path_vars = {norm(s_.targets[0]) for s_ in walk_no_nested(rmf) if isinstance(s_, ast.Assign)
+                 and norm(s_.value) == 'Path(filename)'}
+    name_ok = any(isinstance(s_, ast.Assign) and norm(s_.targets[0]) == 'mol_container.name'
+                  and isinstance(s_.value, ast.Attribute) and s_.value.attr == 'stem'
+                  and norm(s_.value.value) in path_vars for s_ in walk_no_nested(rmf))
+    pick_ok = any(isinstance(s_, ast.Assign) and isinstance(s_.value, ast.IfExp)
+                  and norm(s_.value) == 'filename if stream is None else stream'
+                  for s_ in walk_no_nested(rmf))
+    ext_ok = any(isinstance(s_, ast.Assign) and isinstance(s_.value, ast.Attribute)
+                 and s_.value.attr == 'suffix' and norm(s_.value.value) in path_vars
+                 for s_ in walk_no_nested(rmf))
+    ok = name_ok and pick_ok and ext_ok
     s_uses = [n for n in walk_no_nested(rmf) if isinstance(n, ast.Name) and n.id == 'stream'
               and isinstance(n.ctx, ast.Load)]
     ctx.ob('C03.R4', 'stream-or-path:same-naming', ok and len(s_uses) == 2,
